@@ -222,3 +222,47 @@ def run(ctx):
     import fractions
     from ..tyast import _serial
     drive.for_each_case(ctx, 'derived', max(20, ctx.budget // 20), body_derived, gen=lambda c, r: Ty('int'))
+
+    # values of a SUBCLASS where the declared type is the base (a str-mixin enum member, a StrEnum / IntEnum member, a `class Name(str)`
+    # inside List[str], Dict[str, int], a dataclass field): convert gives back an EQUAL value (the base-typed image is what == compares)
+    def body_subclass_under_base(i, rng, ty_unused, T_unused):
+        import enum
+
+        class Colour(str, enum.Enum):
+            RED = 'red'
+            BLUE = 'blue'
+
+        class Level(enum.IntEnum):
+            LOW = 1
+            HIGH = 2
+
+        class Mode(enum.StrEnum):
+            A = 'a'
+
+        class Name(str):
+            pass
+
+        class Num(int):
+            pass
+
+        class Ratio(float):
+            pass
+        Holder = type(f"KSub{next(_serial)}", (env.PaneBase,), {'__annotations__': {'names': t.List[str], 'n': int, 'table': t.Dict[str, float]},
+                                                                 'n': 0, 'table': env.pfield(default_factory=dict), '__module__': __name__})
+        rows = [(t.List[str], [Colour.RED, 'plain', Name('nm'), Mode.A]), (t.Tuple[str, int], (Colour.BLUE, Level.HIGH)), (t.Dict[str, int], {Mode.A: Num(3), 'k': Level.LOW}),
+                (t.Set[str], {Name('x'), Colour.RED}), (t.Optional[int], Level.LOW), (t.List[float], [Ratio(1.5), 2.5, Level.HIGH]), (str, Colour.RED), (int, Num(7)),
+                (t.Union[int, str], Colour.RED), (t.List[t.Union[int, str]], [Level.LOW, Name('z')])]
+        for TT, x in rows:
+            y = observe(env.convert, x, TT)
+            ctx.count('subclass_under_base_checked')
+            ctx.case(('subclass-under-base', str(TT)[:40], y.kind), nontrivial=True)
+            if y.kind != 'value' or not (y.val == x):
+                ctx.violation('typed-value-is-fixed-point', 'subclass-under-base', i, {'type': short(TT, 120), 'value': short(x, 200), 'convert': y.brief()},
+                              mech='subclass-value-under-base-type-changed')
+                return
+        c = observe(Holder, [Colour.RED, Name('n2')], Level.HIGH, {Mode.A: Ratio(0.5)})
+        if c.kind != 'value' or c.val.names != ['red', 'n2'] or c.val.n != 2 or c.val.table != {'a': 0.5}:
+            ctx.violation('ctor-accepts-typed-arguments', 'subclass-under-base', i, {'class': 'Holder(names: List[str], n: int, table: Dict[str, float])',
+                                                                                     'constructor': c.brief()}, mech='subclass-value-under-base-type-changed')
+
+    drive.for_each_case(ctx, 'subclass-under-base', max(20, ctx.budget // 20), body_subclass_under_base, gen=lambda c, r: Ty('int'))
